@@ -14,11 +14,14 @@ TRUST = [
 NOT_DECIDED = "liveness conclusions (eventual delivery, release of a paused producer) and kernel readiness behaviour are outside any contract on this code and are not decided"
 
 SELECT = {
-    "C04": ("R3:", "R1[", "C04-", "monitor[", "total-never-grows", "returns-whether-sent", "accepted-range", "coverage:", "pre:owns-output-state"),
-    "C05": ("W1-", "W2", "W4-", "R5:", "C05-", "lock:", "coverage:", "raises:OSError", "raises-only"),
-    "C11": ("R6:", "C11-", "close-when-flushed-means-queue-dropped", "R1[req]", "coverage:"),
-    "C12": ("C12-", "W4-", "R5:", "lock:", "W1-", "coverage:", "pre:numbytes", "pre:nonneg"),
-    "C13": ("C13-", "__init__@IO/raises", "__init__@IO/coverage", "R4:", "pre:worker-never-closes", "no-teardown", "connected-only-cleared", "coverage:", "_flush_some@W/raises", "_flush_some@IO/raises", "handle_write@IO/raises"),
+    # C04 also carries the supporting obligations of the shared world (representation invariants of the output state, loop
+    # invariants of the flush loops, frames): they are what "bytes leave in order, once" rests on
+    "C04": ("R3:", "R1[", "C04-", "monitor[", "total-never-grows", "returns-whether-sent", "accepted-range", "coverage:", "pre:owns-output-state",
+            "/inv:", "/inv-entry:", "/inv-preserved:", "frame:", "ensures:lookahead", "pre:worker", "pre:io", "__init__@IO/ensures:connected"),
+    "C05": ("W1-", "W2", "W4-", "W5-", "R5:", "C05-", "lock:", "coverage:", "raises:OSError", "raises-only"),
+    "C11": ("R6:", "C11-", "close-when-flushed-means-queue-dropped", "R1[req]", "coverage:", "service@W[service]/loop0"),
+    "C12": ("C12-", "W4-", "W5-", "R5:", "lock:", "W1-", "coverage:", "pre:numbytes", "pre:nonneg"),
+    "C13": ("C13-", "__init__@IO/raises", "__init__@IO/coverage", "R4:", "pre:worker-never-closes", "no-teardown", "connected-only-cleared", "coverage:", "_flush_some@W/raises", "_flush_some@IOL/raises", "handle_write@IO/raises", "write_soon@W/raises", "handle_close@IO/"),
     "C19": ("C19-", "pre:partial-expecting-request", "pre:holds-requests-lock", "coverage:", "R1[req]:sent_continue", "R1[req]:request-"),
 }
 FUNCS = {
@@ -39,6 +42,15 @@ def main_for(prop, argv=None, level="other"):
     res = chanworld.run(ck)
     pats = SELECT[prop] + (("frame:",) if prop == "C04" else ())
     world.report(ck, res, select=lambda n: any(p in n for p in pats))
+    if prop in ("C04", "C12"):
+        # the channel functions use the output buffers through their FIFO contracts (append / get / skip / len): the bodies behind
+        # those contracts are part of what "bytes leave once, in order" and the backlog accounting rest on (also C17's subject)
+        bufs = ["buffers.OverflowableBuffer.__len__", "buffers.OverflowableBuffer.append", "buffers.OverflowableBuffer.get", "buffers.OverflowableBuffer.skip",
+                "buffers.OverflowableBuffer.close", "buffers.FileBasedBuffer.__len__", "buffers.FileBasedBuffer.append", "buffers.FileBasedBuffer.get",
+                "buffers.FileBasedBuffer.skip", "buffers.FileBasedBuffer.__init__"]
+        res3 = world.run_functions(ck, ["buffers"], bufs, timeout=20)
+        world.report(ck, res3)
+        ck.trusted.append("file model (content, pos) of contracts/buffers.py for BytesIO / TemporaryFile (assumed; exercised by C17's bounded stand-in)")
     if prop == "C13":
         # listener safety: socket errors on accept / option calls / channel set-up never escape handle_accept nor stop the listener
         res2 = world.run_functions(ck, ["server"], ["server.BaseWSGIServer.handle_accept"], timeout=20, hooks_mod="contracts.server")
